@@ -499,7 +499,11 @@ func main() {
 				var numeric int64
 				runs := []string{"0", "1", "9", "00", "01", "09", "10", "11", "19", "90", "99", "010", "100", "0099"}
 				vals := []int{0, 1, 9, 0, 1, 9, 10, 11, 19, 90, 99, 10, 100, 99}
-				for _, p := range []string{"", "a", "/", "a:"} {
+				shortPrefixes := []string{"", "a", "/", "a:"}
+				for k := 2; k <= 17; k++ {
+					shortPrefixes = append(shortPrefixes, "abcdefghijklmnopq"[:k])
+				}
+				for _, p := range shortPrefixes {
 					for _, q := range []string{"", "a", ":", "/x"} {
 						for i, r1 := range runs {
 							for j, r2 := range runs {
@@ -519,7 +523,13 @@ func main() {
 				for _, x := range nums {
 					longRuns = append(longRuns, x, "000"+x)
 				}
-				for _, p := range []string{"", "a", "v1.", "x9/"} {
+				// prefixes of every length 0..17 as well: an implementation that skips a
+				// common prefix a word at a time must not split a digit run
+				prefixes := []string{"", "a", "v1.", "x9/"}
+				for k := 2; k <= 17; k++ {
+					prefixes = append(prefixes, "abcdefghijklmnopq"[:k], "ab/de:gh.jk-mn_pq"[:k-1]+"7")
+				}
+				for _, p := range prefixes {
 					for _, q := range []string{"", "b", ".5", "/7x"} {
 						for _, r1 := range longRuns {
 							for _, r2 := range longRuns {
